@@ -254,8 +254,11 @@ pub fn main(tier: Tier, replay: Option<String>) -> i32 {
     // short ASCII words that end with a terminator (two and three bytes)
     spec.system.push(Row::new("a!", 5, 5, 1000, P_SYM));
     spec.system.push(Row::new("!?", 5, 5, 1000, P_SYM));
+    // a long word of one-byte characters that ends with a terminator (it starts more than ten
+    // characters, but fewer than thirty bytes, before the terminator)
+    spec.system.push(Row::new("abcdefghijkl!", 5, 5, 1000, P_SYM));
     let world = Arc::new(World::build(spec).expect("W-sent"));
-    let alpha = syms(&["あ", "。", "と"], &["！", ".", "．", "(", ")", "「", "」", "1", "a", " ", "<br>", "・", ",", "モー娘。", "な。な", "𠮷", "な", "？", "!", "?", "\\", "\u{20028}", "\u{2300d}"]);
+    let alpha = syms(&["あ", "。", "と"], &["！", ".", "．", "(", ")", "「", "」", "1", "a", " ", "<br>", "・", ",", "モー娘。", "な。な", "𠮷", "な", "？", "!", "?", "\\", "\u{20028}", "\u{2300d}", "abcdefghijkl!"]);
     // (the last two are astral characters whose low sixteen bits are those of `(` and `」`)
     let bounds = tier.pick(TreeBounds { full_len: 3, ext_len: 6, max_special: 2 }, TreeBounds { full_len: 4, ext_len: 7, max_special: 2 });
     let b = json!({"tree": bounds.to_json(), "limits": [1, 2, 3, 5, 4096], "checker": ["none", "dictionary"]});
